@@ -796,6 +796,101 @@ private theorem splitWs_two_nl (sp : Nat → Bool) (a b : Text) (ha : ∀ c ∈ 
     | cons x xs => simp
   simp [splitWsAux, hnl, hbne]
 
+/-- a Unicode scalar value (what a Python `str` that can be UTF-8-encoded consists of) -/
+def Scalar (c : Nat) : Prop := c < 0x110000 ∧ ¬ (0xD800 ≤ c ∧ c ≤ 0xDFFF)
+
+private theorem decFR_char (c : Nat) (hc : Scalar c) (rest : NBytes) (f : Nat)
+    (hf : (utf8encChar c ++ rest).length ≤ f) :
+    ∃ f', rest.length ≤ f' ∧ decFR f (utf8encChar c ++ rest) = c :: decFR f' rest := by
+  obtain ⟨hlt, hns⟩ := hc
+  unfold utf8encChar at hf ⊢
+  by_cases h1 : c < 0x80
+  · simp only [h1, if_true] at hf ⊢
+    cases f with
+    | zero => simp at hf
+    | succ f =>
+      refine ⟨f, by simp at hf; omega, ?_⟩
+      simp [decFR, decStepR, h1]
+  · simp only [h1, if_false] at hf ⊢
+    by_cases h2 : c < 0x800
+    · simp only [h2, if_true] at hf ⊢
+      cases f with
+      | zero => simp at hf
+      | succ f =>
+        refine ⟨f, by simp at hf; omega, ?_⟩
+        have a1 : ¬ (0xC0 + c / 64 < 0x80) := by omega
+        have a2 : 0xC2 ≤ 0xC0 + c / 64 ∧ 0xC0 + c / 64 ≤ 0xDF := by omega
+        have a3 : isCont (0x80 + c % 64) = true := by simp [isCont]; omega
+        have a4 : (0xC0 + c / 64 - 0xC0) * 64 + (0x80 + c % 64 - 0x80) = c := by omega
+        simp only [List.cons_append, List.nil_append, decFR, decStepR, a1, if_false, a2, and_self, if_true, a3, a4]
+        simp
+    · simp only [h2, if_false] at hf ⊢
+      by_cases h3 : c < 0x10000
+      · simp only [h3, if_true] at hf ⊢
+        cases f with
+        | zero => simp at hf
+        | succ f =>
+          refine ⟨f, by simp at hf; omega, ?_⟩
+          have a1 : ¬ (0xE0 + c / 4096 < 0x80) := by omega
+          have a2 : ¬ (0xC2 ≤ 0xE0 + c / 4096 ∧ 0xE0 + c / 4096 ≤ 0xDF) := by omega
+          have a3 : 0xE0 ≤ 0xE0 + c / 4096 ∧ 0xE0 + c / 4096 ≤ 0xEF := by omega
+          have a4 : ok3 (0xE0 + c / 4096) (0x80 + c / 64 % 64) = true := by
+            simp only [ok3, isCont, Bool.and_eq_true, Bool.or_eq_true, decide_eq_true_eq, bne_iff_ne, ne_eq]
+            refine ⟨⟨⟨by omega, by omega⟩, ?_⟩, ?_⟩
+            · by_cases he : 0xE0 + c / 4096 = 0xE0
+              · right; omega
+              · left; exact he
+            · by_cases he : 0xE0 + c / 4096 = 0xED
+              · right; omega
+              · left; exact he
+          have a5 : isCont (0x80 + c % 64) = true := by simp [isCont]; omega
+          have a6 : (0xE0 + c / 4096 - 0xE0) * 4096 + (0x80 + c / 64 % 64 - 0x80) * 64 + (0x80 + c % 64 - 0x80) = c := by
+            omega
+          simp only [List.cons_append, List.nil_append, decFR, decStepR, a1, if_false, a2, a3, and_self, if_true, a4,
+            Bool.not_true, Bool.false_eq_true, a5, a6]
+          simp
+      · simp only [h3, if_false] at hf ⊢
+        cases f with
+        | zero => simp at hf
+        | succ f =>
+          refine ⟨f, by simp at hf; omega, ?_⟩
+          have a1 : ¬ (0xF0 + c / 262144 < 0x80) := by omega
+          have a2 : ¬ (0xC2 ≤ 0xF0 + c / 262144 ∧ 0xF0 + c / 262144 ≤ 0xDF) := by omega
+          have a3 : ¬ (0xE0 ≤ 0xF0 + c / 262144 ∧ 0xF0 + c / 262144 ≤ 0xEF) := by omega
+          have a3' : 0xF0 ≤ 0xF0 + c / 262144 ∧ 0xF0 + c / 262144 ≤ 0xF4 := by omega
+          have a4 : ok4 (0xF0 + c / 262144) (0x80 + c / 4096 % 64) = true := by
+            simp only [ok4, isCont, Bool.and_eq_true, Bool.or_eq_true, decide_eq_true_eq, bne_iff_ne, ne_eq]
+            refine ⟨⟨⟨by omega, by omega⟩, ?_⟩, ?_⟩
+            · by_cases he : 0xF0 + c / 262144 = 0xF0
+              · right; omega
+              · left; exact he
+            · by_cases he : 0xF0 + c / 262144 = 0xF4
+              · right; omega
+              · left; exact he
+          have a5 : isCont (0x80 + c / 64 % 64) = true := by simp [isCont]; omega
+          have a5' : isCont (0x80 + c % 64) = true := by simp [isCont]; omega
+          have a6 : (0xF0 + c / 262144 - 0xF0) * 262144 + (0x80 + c / 4096 % 64 - 0x80) * 4096 +
+              (0x80 + c / 64 % 64 - 0x80) * 64 + (0x80 + c % 64 - 0x80) = c := by omega
+          simp only [List.cons_append, List.nil_append, decFR, decStepR, a1, if_false, a2, a3, a3', and_self, if_true, a4,
+            Bool.not_true, Bool.false_eq_true, a5, a5', a6]
+          simp
+
+private theorem decFR_enc (t : Text) (ht : ∀ c ∈ t, Scalar c) :
+    ∀ f, (utf8enc t).length ≤ f → decFR f (utf8enc t) = t := by
+  induction t with
+  | nil => intro f _; cases f <;> simp [utf8enc, decFR]
+  | cons c cs ih =>
+    intro f hf
+    have henc : utf8enc (c :: cs) = utf8encChar c ++ utf8enc cs := by simp [utf8enc]
+    rw [henc] at hf ⊢
+    obtain ⟨f', hf', heq⟩ := decFR_char c (ht c (by simp)) (utf8enc cs) f hf
+    rw [heq, ih (fun x hx => ht x (by simp [hx])) f' hf']
+
+/-- **UTF-8 round trip** for the transcribed `bytes.decode("utf8", "replace")`: decoding inverts `str.encode` on every
+    text of Unicode scalar values (no U+FFFD is ever produced for well-formed input). -/
+theorem utf8_roundtrip (t : Text) (ht : ∀ c ∈ t, Scalar c) : utf8decR (utf8enc t) = t :=
+  decFR_enc t ht _ (Nat.le_refl _)
+
 /-- the standard library of the running interpreter: the regenerated `str.isspace` / `str.lower` tables, and
     `a2b_base64` / `str.encode` as transcribed; the UTF-8 "replace" decoder `dec` is the remaining parameter -/
 structure StdLib (L : Lib) (dec : NBytes → Text) : Prop where
@@ -876,6 +971,49 @@ theorem standard_credentials_accepted_on_every_path (L : Lib) (dec : NBytes → 
     rw [hval]; exact standard_credential_wellformed L dec hL _ u p (Or.inl rfl) hrange hdec hu
   have := (validator_accepts_implies_path_accepts L v m σ cid u p hacc).1 hs t big hw hp
   exact ⟨this.1, fun hm ht => ⟨(this.2 hm ht).1, (this.2 hm ht).2.1⟩⟩
+
+/-! ### nothing left as a parameter on the token path -/
+
+/-- the interpreter's library on the token path, every part transcribed: `str.isspace` / `str.lower` tables
+    (regenerated), `str.encode`, `binascii.a2b_base64`, `bytes.decode("utf8", "replace")` -/
+structure StdLibFull (L : Lib) : Prop where
+  space : L.isSpace = genIsSpace
+  lower : L.lower = genLower
+  decode : L.decodeCred = decodeCredStd
+
+theorem StdLibFull.toStd {L : Lib} (h : StdLibFull L) : StdLib L utf8decR :=
+  ⟨h.space, h.lower, by rw [h.decode]; rfl⟩
+
+private theorem scalar_facts (t : Text) (h : ∀ c ∈ t, Scalar c) :
+    (∀ c ∈ t, c < 0x110000) ∧ utf8decR (utf8enc t) = t :=
+  ⟨fun c hc => (h c hc).1, utf8_roundtrip t h⟩
+
+/-- **`mkauth` output parses back — no hypothesis about any library function**: for every user without ':' and every
+    password (colons allowed) made of Unicode scalar values. -/
+theorem mkauth_parses_closed (L : Lib) (hL : StdLibFull L) (u p : Text)
+    (hsc : ∀ c ∈ u ++ 58 :: p, Scalar c) (hu : ∀ c ∈ u, c ≠ 58) :
+    parseBasic L (mkauth u p) = some (u, p) :=
+  mkauth_parses L utf8decR hL.toStd u p (scalar_facts _ hsc).1 (scalar_facts _ hsc).2 hu
+
+/-- **C20 (every accepted pair is accepted on each HTTP path), closed form**: the validator accepts `(u, p)`, the
+    path's credential header is `Basic base64(utf8(u:p))` — then a plain request is forwarded and a CONNECT establishes
+    the tunnel and memoises the connection.  Hypotheses: `u` has no ':' and `u`, `p` are texts of Unicode scalar values;
+    nothing about base64, UTF-8, whitespace or case folding is assumed any more. -/
+theorem standard_credentials_accepted_on_every_path_closed (L : Lib) (hL : StdLibFull L)
+    (v : Validator) (m : Mode) (σ : State) (cid : Nat) (u p : Text) (hacc : v.accepts L u p = true)
+    (hsc : ∀ c ∈ u ++ 58 :: p, Scalar c) (hu : ∀ c ∈ u, c ≠ 58) (hs : List Hdr) (t big : Bool)
+    (hval : hdrGet hs (authName m) = strText "Basic" ++ 32 :: b2a (utf8enc (u ++ 58 :: p)))
+    (hp : σ.phase cid = .http t) :
+    (∃ hs', (step L (some v) m σ cid (.req false false hs)).2 = .fwd hs') ∧
+    (m.isHttpProxy = true → t = false →
+      (step L (some v) m σ cid (.req true big hs)).2 = .tunnel ∧
+      cid ∈ (step L (some v) m σ cid (.req true big hs)).1.authd) :=
+  standard_credentials_accepted_on_every_path L utf8decR hL.toStd v m σ cid u p hacc
+    (scalar_facts _ hsc).1 (scalar_facts _ hsc).2 hu hs t big hval hp
+
+-- the decoder does replace: a truncated 3-byte sequence is ONE U+FFFD, a stray continuation byte another one
+example : utf8decR [0xE2, 0x82, 0x41, 0x80] = [0xFFFD, 0x41, 0xFFFD] ∧ utf8decR (utf8enc [0x20AC, 0x1D11E]) = [0x20AC, 0x1D11E] := by
+  decide +kernel
 
 /-! ### the 401 / 407 page -/
 
